@@ -1649,14 +1649,66 @@ theorem keeps_setBuf (buf : Bytes) (lo : Nat) (jenv : JEnv) (v : JVal) : Keeps b
 theorem bufIs_setBuf (buf : Bytes) (jenv : JEnv) (t : Bytes) : BufIs buf (setLocal jenv buf (.str t)) t := by
   simp [BufIs, setLocal]
 
+/-! ### the loops part of the relation -/
+
+open SoyVerif.Props.C04c (VarRel LoopRel FrameRel)
+
+theorem localNum_congr {a b : JEnv} {x : Bytes} (h : b.locals.find? (·.1 == x) = a.locals.find? (·.1 == x)) :
+    localNum b x = localNum a x := by
+  simp only [localNum, h]
+
+/-- a loop's state only looks at the `$`-keys of its frame and at the locals they name -/
+theorem frameRel_congr {f f' : Frame} {v : Bytes} {i last : Nat} {jenv jenv' : JEnv}
+    (hget : ∀ k, k.contains 36 = true → frameGet? f' k = frameGet? f k)
+    (hloc : ∀ k x, frameGet? f k = some x → localNum jenv' x = localNum jenv x)
+    (h : FrameRel f v i last jenv) : FrameRel f' v i last jenv' := by
+  obtain ⟨hex, hix, hlast⟩ := h
+  have gI := hget _ (SoyVerif.Lemmas.JsGenSpec.kIndex_dollar v)
+  have gL := hget _ (SoyVerif.Lemmas.JsGenSpec.kLimit_dollar v)
+  have gS := hget _ (SoyVerif.Lemmas.JsGenSpec.kStep_dollar v)
+  have gV := hget _ (SoyVerif.Lemmas.JsGenSpec.kVar_dollar v)
+  refine ⟨hex, ?_, ?_⟩
+  · intro idx hidx
+    rw [gI] at hidx
+    rw [hloc _ _ hidx]
+    exact hix idx hidx
+  · rw [gS]
+    cases hs : frameGet? f (Scope.kStep ++ v) with
+    | none =>
+      simp only [hs] at hlast ⊢
+      intro lim hlim
+      rw [gL] at hlim
+      rw [hloc _ _ hlim]
+      exact hlast lim hlim
+    | some step =>
+      simp only [hs] at hlast ⊢
+      intro lv lim hlv hlim
+      rw [gV] at hlv
+      rw [gL] at hlim
+      obtain ⟨a, st, l, h1, h2, h3, h4⟩ := hlast lv lim hlv hlim
+      exact ⟨a, st, l, by rw [hloc _ _ hlv]; exact h1, by rw [hloc _ _ hs]; exact h2, by rw [hloc _ _ hlim]; exact h3, h4⟩
+
+theorem loopRel_keep {buf : Bytes} {sc sc' : Scope} {env : SEnv} {jenv jenv' : JEnv} {lo : Nat}
+    (hrel : LoopRel sc env jenv) (hk : Keeps buf lo jenv jenv') (hb : Bounded sc) (hlo : sc.n ≤ lo)
+    (hfr : Fresh sc buf) (hst : sc'.stack = sc.stack) : LoopRel sc' env jenv' := by
+  intro v f hf
+  rw [hst] at hf
+  obtain ⟨i, last, hfl, hfr'⟩ := hrel v f hf
+  have hmem := SoyVerif.Lemmas.JsGenSafe.loopFrame_mem sc.stack v f hf
+  refine ⟨i, last, hfl, frameRel_congr (fun _ _ => rfl) ?_ hfr'⟩
+  intro k x hkx
+  have hm := frameGet_mem f k x hkx
+  exact localNum_congr (hk.2.2 x (hfr f hmem _ hm) ((hb f hmem _ hm).2.mono hlo))
+
 /-- the relation survives everything `Keeps` allows, in every scope with the same frames -/
 theorem envRel_keep {buf : Bytes} {sc sc' : Scope} {env : SEnv} {jenv jenv' : JEnv} {lo : Nat}
     (hrel : EnvRel sc env jenv) (hk : Keeps buf lo jenv jenv') (hb : Bounded sc) (hlo : sc.n ≤ lo)
     (hfr : Fresh sc buf) (hst : sc'.stack = sc.stack) : EnvRel sc' env jenv' := by
+  refine ⟨?_, loopRel_keep hrel.2 hk hb hlo hfr hst⟩
   intro k hkij hkd
   have hl : sc'.lookup k = sc.lookup k := by simp [Scope.lookup, hst]
   rw [hl]
-  have hr := hrel k hkij hkd
+  have hr := hrel.1 k hkij hkd
   cases hg : sc.lookup k with
   | none =>
     simp only [hg] at hr ⊢
@@ -1674,10 +1726,200 @@ theorem envRel_keep {buf : Bytes} {sc sc' : Scope} {env : SEnv} {jenv jenv' : JE
 
 theorem envRel_stack {sc sc' : Scope} {env : SEnv} {jenv : JEnv} (hrel : EnvRel sc env jenv) (hst : sc'.stack = sc.stack) :
     EnvRel sc' env jenv := by
-  intro k hkij hkd
-  have hl : sc'.lookup k = sc.lookup k := by simp [Scope.lookup, hst]
-  rw [hl]
-  exact hrel k hkij hkd
+  refine ⟨?_, ?_⟩
+  · intro k hkij hkd
+    have hl : sc'.lookup k = sc.lookup k := by simp [Scope.lookup, hst]
+    rw [hl]
+    exact hrel.1 k hkij hkd
+  · intro v f hf
+    rw [hst] at hf
+    exact hrel.2 v f hf
+
+theorem envRel_push {sc : Scope} {env : SEnv} {jenv : JEnv} (hrel : EnvRel sc env jenv) : EnvRel sc.push env jenv := by
+  refine ⟨?_, ?_⟩
+  · intro k hk hd
+    have : sc.push.lookup k = sc.lookup k := by simp [Scope.push, Scope.lookup, Scope.lookupIn, frameGet?]
+    rw [this]
+    exact hrel.1 k hk hd
+  · intro v f hf
+    have : Scope.loopFrame sc.push.stack v = Scope.loopFrame sc.stack v := by
+      simp [Scope.push, Scope.loopFrame, frameGet?]
+    rw [this] at hf
+    exact hrel.2 v f hf
+
+/-- a frame in which a Soy name was (re)bound: the loops do not see it -/
+theorem loopFrame_setTop (st : List Frame) (x g v : Bytes) (hx : x.contains 36 = false) :
+    (∀ f', Scope.loopFrame (Scope.setTop st x g) v = some f' →
+      ∃ f, Scope.loopFrame st v = some f ∧ ∀ k, k.contains 36 = true → frameGet? f' k = frameGet? f k) := by
+  intro f' hf'
+  cases st with
+  | nil => simp [Scope.setTop, Scope.loopFrame] at hf'
+  | cons f0 r =>
+    have hne : ∀ k, k.contains 36 = true → (x == k) = false := by
+      intro k hk
+      cases h : (x == k) with
+      | false => rfl
+      | true => have := C04c.beq_true_eq h; subst this; rw [hx] at hk; cases hk
+    have hget : ∀ k, k.contains 36 = true → frameGet? (frameSet f0 x g) k = frameGet? f0 k := by
+      intro k hk
+      rw [C04c.frameGet_frameSet, hne k hk]
+      simp
+    simp only [Scope.setTop, Scope.loopFrame] at hf' ⊢
+    rw [hget _ (SoyVerif.Lemmas.JsGenSpec.kIndex_dollar v)] at hf'
+    cases hg : frameGet? f0 (Scope.kIndex ++ v) with
+    | some _ =>
+      simp only [hg, Option.some.injEq] at hf' ⊢
+      subst hf'
+      exact ⟨f0, rfl, hget⟩
+    | none =>
+      simp only [hg] at hf' ⊢
+      exact ⟨f', hf', fun _ _ => rfl⟩
+
+/-- binding a Soy name in the top frame keeps the loops part, as long as the locals the frames name keep
+    their numbers -/
+theorem loopRel_setTop {sc : Scope} {env env' : SEnv} {jenv jenv' : JEnv} (hrel : LoopRel sc env jenv)
+    (x g : Bytes) (hx : x.contains 36 = false) (n' : Nat)
+    (hloc : ∀ f ∈ sc.stack, ∀ kv ∈ f, localNum jenv' kv.2 = localNum jenv kv.2)
+    (hloops : env'.loops = env.loops) :
+    LoopRel ⟨Scope.setTop sc.stack x g, n'⟩ env' jenv' := by
+  intro v f' hf'
+  obtain ⟨f, hf, hget⟩ := loopFrame_setTop sc.stack x g v hx f' hf'
+  obtain ⟨i, last, hfl, hfr⟩ := hrel v f hf
+  have hmem := SoyVerif.Lemmas.JsGenSafe.loopFrame_mem sc.stack v f hf
+  refine ⟨i, last, by rw [hloops]; exact hfl, frameRel_congr hget ?_ hfr⟩
+  intro k y hky
+  exact hloc f hmem _ (frameGet_mem f k y hky)
+
+theorem exact_le {i n : Int} (h0 : 0 ≤ i) (hle : i ≤ n) (hn : SoyVerif.Spec.JsSem.exact n = true) :
+    SoyVerif.Spec.JsSem.exact i = true := by
+  simp only [SoyVerif.Spec.JsSem.exact, decide_eq_true_eq] at hn ⊢
+  have : (0 : Int) ≤ SoyVerif.Spec.JsSem.two53 := by decide
+  omega
+
+theorem key_no_dollar {v k : Bytes} (hv : v.contains 36 = false) (hk : k.contains 36 = true) : (v == k) = false := by
+  cases hh : (v == k) with
+  | false => rfl
+  | true => have := C04c.beq_true_eq hh; subst this; rw [hv] at hk; cases hk
+
+/-- the frame `pushForEach` opens -/
+def eachFrame (sc : Scope) (v : Bytes) : Frame :=
+  frameSet (frameSet (frameSet [] v (Scope.jsname v [] (sc.n + 1))) (Scope.kLimit ++ v) (Scope.jsname v b!"Limit" (sc.n + 1)))
+    (Scope.kIndex ++ v) (Scope.jsname v b!"Index" (sc.n + 1))
+
+theorem pushForEach_stack (sc : Scope) (v : Bytes) : (sc.pushForEach v).2.stack = eachFrame sc v :: sc.stack := rfl
+
+theorem eachFrame_index (sc : Scope) (v v' : Bytes) (hv : v.contains 36 = false) :
+    frameGet? (eachFrame sc v) (Scope.kIndex ++ v') = if v == v' then some (Scope.jsname v b!"Index" (sc.n + 1)) else none := by
+  have e1 : (Scope.kIndex ++ v == Scope.kIndex ++ v') = (v == v') := by simp [Scope.kIndex]
+  have e2 : (Scope.kLimit ++ v == Scope.kIndex ++ v') = false := by simp [Scope.kLimit, Scope.kIndex]
+  have e3 : (v == Scope.kIndex ++ v') = false := key_no_dollar hv (SoyVerif.Lemmas.JsGenSpec.kIndex_dollar v')
+  unfold eachFrame
+  rw [C04c.frameGet_frameSet, C04c.frameGet_frameSet, C04c.frameGet_frameSet, e1, e2, e3]
+  simp [frameGet?]
+
+theorem eachFrame_limit (sc : Scope) (v : Bytes) :
+    frameGet? (eachFrame sc v) (Scope.kLimit ++ v) = some (Scope.jsname v b!"Limit" (sc.n + 1)) := by
+  have e1 : (Scope.kIndex ++ v == Scope.kLimit ++ v) = false := by simp [Scope.kLimit, Scope.kIndex]
+  unfold eachFrame
+  rw [C04c.frameGet_frameSet, C04c.frameGet_frameSet, e1]
+  simp
+
+theorem eachFrame_step (sc : Scope) (v : Bytes) (hv : v.contains 36 = false) :
+    frameGet? (eachFrame sc v) (Scope.kStep ++ v) = none := by
+  have e1 : (Scope.kIndex ++ v == Scope.kStep ++ v) = false := by simp [Scope.kStep, Scope.kIndex]
+  have e2 : (Scope.kLimit ++ v == Scope.kStep ++ v) = false := by simp [Scope.kLimit, Scope.kStep]
+  have e3 : (v == Scope.kStep ++ v) = false := key_no_dollar hv (SoyVerif.Lemmas.JsGenSpec.kStep_dollar v)
+  unfold eachFrame
+  rw [C04c.frameGet_frameSet, C04c.frameGet_frameSet, C04c.frameGet_frameSet, e1, e2, e3]
+  simp [frameGet?]
+
+/-- entering an iteration of a foreach: the item is bound to its fresh local, the loop is the innermost one -/
+theorem envRel_foreach_iter {sc : Scope} (hs : ScOk sc) (v : Bytes) (hv : v.contains 36 = false) (env : SEnv) (e : JEnv)
+    (hrel : EnvRel sc env e) (item : Val) (jitem : JVal) (hitem : toJsV item = some jitem) (i last : Nat) (n : Int)
+    (hexi : SoyVerif.Spec.JsSem.exact (i : Int) = true) (hn : n = (last : Int) + 1)
+    (h2 : e.locals.find? (·.1 == Scope.jsname v b!"Limit" (sc.n + 1)) = some (Scope.jsname v b!"Limit" (sc.n + 1), .num n))
+    (h3 : e.locals.find? (·.1 == Scope.jsname v b!"Index" (sc.n + 1)) = some (Scope.jsname v b!"Index" (sc.n + 1), .num i)) :
+    EnvRel (sc.pushForEach v).2 { (env.bind v item) with loops := (v, i, last) :: env.loops }
+      (setLocal e (Scope.jsname v [] (sc.n + 1)) jitem) := by
+  have u0 : IsUse [] := Or.inl rfl
+  have uN : IsUse b!"Limit" := Or.inr (Or.inr (Or.inl rfl))
+  have uI : IsUse b!"Index" := Or.inr (Or.inr (Or.inr (Or.inl rfl)))
+  have hd : ∀ {u u' : Bytes}, IsUse u → IsUse u' → u ≠ u' → Scope.jsname v u (sc.n + 1) ≠ Scope.jsname v u' (sc.n + 1) :=
+    fun hu hu' hne e => hne (jsname_inj_all hv hv hu hu' e).2.1
+  refine ⟨C04c.envRel_foreach sc env e (bounded_shape hs.2) v hv item jitem hrel.1 hitem, ?_⟩
+  intro v' f hf
+  rw [pushForEach_stack] at hf
+  simp only [Scope.loopFrame, eachFrame_index sc v v' hv] at hf
+  by_cases hvv : (v == v') = true
+  · have : v = v' := C04c.beq_true_eq hvv
+    subst this
+    simp only [beq_self_eq_true, if_true, Option.some.injEq] at hf
+    subst hf
+    refine ⟨i, last, by simp [Spec.Eval.findLoop], hexi, ?_, ?_⟩
+    · intro idx hidx
+      rw [eachFrame_index sc v v hv] at hidx
+      simp only [beq_self_eq_true, if_true, Option.some.injEq] at hidx
+      subst hidx
+      rw [localNum_congr (find_setLocal_ne e _ _ jitem (hd uI u0 (by decide)))]
+      exact C04c.localNum_of_find h3
+    · rw [eachFrame_step sc v hv]
+      intro lim hlim
+      rw [eachFrame_limit] at hlim
+      simp only [Option.some.injEq] at hlim
+      subst hlim
+      rw [localNum_congr (find_setLocal_ne e _ _ jitem (hd uN u0 (by decide))), ← hn]
+      exact C04c.localNum_of_find h2
+  · have hvv' : (v == v') = false := by simpa using hvv
+    simp only [hvv', Bool.false_eq_true, if_false] at hf
+    obtain ⟨i', last', hfl, hfr⟩ := hrel.2 v' f hf
+    have hmem := SoyVerif.Lemmas.JsGenSafe.loopFrame_mem sc.stack v' f hf
+    refine ⟨i', last', by simp [Spec.Eval.findLoop, hvv', hfl], frameRel_congr (fun _ _ => rfl) ?_ hfr⟩
+    intro k y hky
+    have hold := (hs.2 f hmem _ (frameGet_mem f k y hky)).2
+    exact localNum_congr (find_setLocal_ne e _ y jitem (hold v [] (sc.n + 1) hv u0 (Nat.lt_succ_self _)))
+
+/-- the frame `pushForRange` opens -/
+def rangeFrame (sc : Scope) (v : Bytes) : Frame :=
+  frameSet (frameSet (frameSet (frameSet (frameSet [] v (Scope.jsname v [] (sc.n + 1))) (Scope.kLimit ++ v)
+    (Scope.jsname v b!"Limit" (sc.n + 1))) (Scope.kStep ++ v) (Scope.jsname v b!"Step" (sc.n + 1)))
+    (Scope.kIndex ++ v) (Scope.jsname v b!"Index" (sc.n + 1))) (Scope.kVar ++ v) (Scope.jsname v [] (sc.n + 1))
+
+theorem pushForRange_stack (sc : Scope) (v : Bytes) : (sc.pushForRange v).2.stack = rangeFrame sc v :: sc.stack := rfl
+
+theorem rangeFrame_index (sc : Scope) (v v' : Bytes) (hv : v.contains 36 = false) :
+    frameGet? (rangeFrame sc v) (Scope.kIndex ++ v') = if v == v' then some (Scope.jsname v b!"Index" (sc.n + 1)) else none := by
+  have e0 : (Scope.kVar ++ v == Scope.kIndex ++ v') = false := by simp [Scope.kVar, Scope.kIndex]
+  have e1 : (Scope.kIndex ++ v == Scope.kIndex ++ v') = (v == v') := by simp [Scope.kIndex]
+  have e2 : (Scope.kStep ++ v == Scope.kIndex ++ v') = false := by simp [Scope.kStep, Scope.kIndex]
+  have e3 : (Scope.kLimit ++ v == Scope.kIndex ++ v') = false := by simp [Scope.kLimit, Scope.kIndex]
+  have e4 : (v == Scope.kIndex ++ v') = false := key_no_dollar hv (SoyVerif.Lemmas.JsGenSpec.kIndex_dollar v')
+  unfold rangeFrame
+  rw [C04c.frameGet_frameSet, C04c.frameGet_frameSet, C04c.frameGet_frameSet, C04c.frameGet_frameSet, C04c.frameGet_frameSet,
+    e0, e1, e2, e3, e4]
+  simp [frameGet?]
+
+theorem rangeFrame_step (sc : Scope) (v : Bytes) :
+    frameGet? (rangeFrame sc v) (Scope.kStep ++ v) = some (Scope.jsname v b!"Step" (sc.n + 1)) := by
+  have e0 : (Scope.kVar ++ v == Scope.kStep ++ v) = false := by simp [Scope.kVar, Scope.kStep]
+  have e1 : (Scope.kIndex ++ v == Scope.kStep ++ v) = false := by simp [Scope.kStep, Scope.kIndex]
+  unfold rangeFrame
+  rw [C04c.frameGet_frameSet, C04c.frameGet_frameSet, C04c.frameGet_frameSet, e0, e1]
+  simp
+
+theorem rangeFrame_var (sc : Scope) (v : Bytes) :
+    frameGet? (rangeFrame sc v) (Scope.kVar ++ v) = some (Scope.jsname v [] (sc.n + 1)) := by
+  unfold rangeFrame
+  rw [C04c.frameGet_frameSet]
+  simp
+
+theorem rangeFrame_limit (sc : Scope) (v : Bytes) :
+    frameGet? (rangeFrame sc v) (Scope.kLimit ++ v) = some (Scope.jsname v b!"Limit" (sc.n + 1)) := by
+  have e0 : (Scope.kVar ++ v == Scope.kLimit ++ v) = false := by simp [Scope.kVar, Scope.kLimit]
+  have e1 : (Scope.kIndex ++ v == Scope.kLimit ++ v) = false := by simp [Scope.kLimit, Scope.kIndex]
+  have e2 : (Scope.kStep ++ v == Scope.kLimit ++ v) = false := by simp [Scope.kStep, Scope.kLimit]
+  unfold rangeFrame
+  rw [C04c.frameGet_frameSet, C04c.frameGet_frameSet, C04c.frameGet_frameSet, C04c.frameGet_frameSet, e0, e1, e2]
+  simp
 
 /-! ### running single statements -/
 
@@ -1856,7 +2098,9 @@ theorem letValue_ok (p : Nat) (x : Bytes) (e : Expr) : CmdOk F ae buf (.letValue
         have hgb : (sc.makevar x).1 ≠ buf := fun e' =>
           hgood.1 x [] (sc.n + 1) hxd' (Or.inl rfl) (Nat.lt_succ_self _) e'.symm
         refine ⟨[], env.bind x v, by simp [refCmd, hv, Spec.Eval.Out.bind], ?_, ?_, ?_⟩
-        · exact C04c.envRel_let sc env jenv f st hst (bounded_shape hbd) x hxd' v jv hrel hvj
+        · refine ⟨C04c.envRel_let sc env jenv f st hst (bounded_shape hbd) x hxd' v jv hrel.1 hvj, ?_⟩
+          exact loopRel_setTop hrel.2 x _ hxd' _ (fun f0 hf0 kv hkv => localNum_congr (find_setLocal_ne jenv _ _ jv
+            ((hbd f0 hf0 kv hkv).2 x [] (sc.n + 1) hxd' (Or.inl rfl) (Nat.lt_succ_self _)))) rfl
         · unfold BufIs
           rw [find_setLocal_ne jenv _ buf jv hgb.symm, List.append_nil]
           exact hb
@@ -1888,10 +2132,7 @@ theorem block_ok (p : Nat) (cmds : CmdList) (ih : CmdsOk F ae buf cmds) : BlockO
   split at h
   · rename_i rc hrc
     simp only [Option.some.injEq] at h; subst h
-    have hrel' : EnvRel sc.push env jenv := by
-      intro k hk hd
-      rw [lookup_push]
-      exact hrel k hk hd
+    have hrel' : EnvRel sc.push env jenv := envRel_push hrel
     obtain ⟨text, ht, hb', hk⟩ := ih fuel sc.push rc env jenv jenv' out hrc (scOk_push hs.2) (goodBuf_push hg) hrel' hb hx
     exact ⟨text, by simp only [refBlock]; exact ht, hb', hk⟩
   · cases h
@@ -2133,6 +2374,7 @@ theorem body_ok (p : Nat) (cmds : CmdList) (ih : CmdsOk F ae buf cmds) : BodyOk 
 theorem loop_ok {sc : Scope} (hs : ScOk sc) (hg : GoodBuf sc buf) (v : Bytes) (hv : v.contains 36 = false) (body : Block)
     (rb : JsStmts × Scope) (hrb : toBody ae buf body (sc.pushForEach v).2 = some rb) (ihb : BodyOk F ae buf body)
     (env : SEnv) (xs : List Val) (js : List JVal) (hxs : C04c.toJsList xs = some js) (fuel last : Nat)
+    (hexl : SoyVerif.Spec.JsSem.exact (js.length : Int) = true) (hlast : xs ≠ [] → xs.length = last + 1)
     (lv xl xn xi : Bytes) (hlv : lv = Scope.jsname v [] (sc.n + 1)) (hxl : xl = Scope.jsname v b!"List" (sc.n + 1))
     (hxn : xn = Scope.jsname v b!"Limit" (sc.n + 1)) (hxi : xi = Scope.jsname v b!"Index" (sc.n + 1)) :
     ∀ (rest : List Val) (i : Nat), xs.drop i = rest → ∀ (k : Nat) (e e' : JEnv) (out : Bytes),
@@ -2217,9 +2459,10 @@ theorem loop_ok {sc : Scope} (hs : ScOk sc) (hg : GoodBuf sc buf) (v : Bytes) (h
         exact this
       have hrel_a : EnvRel (sc.pushForEach v).2
           { (env.bind v item) with loops := (v, i, last) :: env.loops } (setLocal e lv (js.getD i .undefined)) := by
-        have := C04c.envRel_foreach sc env e (bounded_shape hs.2) v hv item _ hrel hjitem
+        have hne : xs ≠ [] := by intro e0; rw [e0] at hlt; cases hlt
         rw [hlv]
-        exact this
+        exact envRel_foreach_iter hs v hv env e hrel item _ hjitem i last js.length
+          (exact_le (by omega) (by omega) hexl) (by have := hlast hne; omega) (by rw [← hxn]; exact h2) (by rw [← hxi]; exact h3)
       have hb_a : BufIs buf (setLocal e lv (js.getD i .undefined)) out := by
         unfold BufIs
         rw [find_setLocal_ne e lv buf _ (by rw [hlv]; exact (nb _ (Or.inl rfl)).symm)]
@@ -2341,26 +2584,58 @@ theorem pushForRange_lookup (sc : Scope) (x k : Bytes) (hk : k.contains 36 = fal
   · simp [h]
   · simp [h, frameGet?]
 
-/-- inside a range loop: the loop variable is held by its local, everything else as outside -/
-theorem envRel_forrange (sc : Scope) (env : SEnv) (e : JEnv) (x : Bytes) (a : Int) (hrel : EnvRel sc env e)
-    (ha : SoyVerif.Spec.JsSem.exact a = true)
-    (hfind : e.locals.find? (·.1 == (sc.pushForRange x).1.1) = some ((sc.pushForRange x).1.1, .num a)) (loops) :
-    EnvRel (sc.pushForRange x).2 { (env.bind x (.int a)) with loops := loops } e := by
-  intro k hk hd
-  rw [pushForRange_lookup sc x k hd]
-  by_cases hkx : (x == k) = true
-  · have : x = k := by simpa using hkx
-    subst this
-    simp only [hkx, if_true]
-    refine ⟨_, hfind, ?_⟩
-    simp [Spec.Eval.Env.bind, Spec.Eval.Env.lookup, Spec.Eval.find, C04c.toJsV, ha]
-  · simp only [hkx, Bool.false_eq_true, if_false]
-    have hr := hrel k hk hd
-    have hlook : Spec.Eval.Env.lookup { (env.bind x (.int a)) with loops := loops } k = env.lookup k := by
-      have : (x == k) = false := by simpa using hkx
-      simp [Spec.Eval.Env.bind, Spec.Eval.Env.lookup, Spec.Eval.find, this]
-    rw [hlook]
-    exact hr
+/-- inside a range loop: the loop variable is held by its local, the loop is the innermost one, everything else as
+    outside -/
+theorem envRel_forrange (sc : Scope) (env : SEnv) (e : JEnv) (x : Bytes) (hx : x.contains 36 = false) (a s l : Int)
+    (idx last : Nat) (hrel : EnvRel sc env e) (ha : SoyVerif.Spec.JsSem.exact a = true)
+    (hexi : SoyVerif.Spec.JsSem.exact (idx : Int) = true)
+    (hfind : e.locals.find? (·.1 == Scope.jsname x [] (sc.n + 1)) = some (Scope.jsname x [] (sc.n + 1), .num a))
+    (hfs : e.locals.find? (·.1 == Scope.jsname x b!"Step" (sc.n + 1)) = some (Scope.jsname x b!"Step" (sc.n + 1), .num s))
+    (hfl : e.locals.find? (·.1 == Scope.jsname x b!"Limit" (sc.n + 1)) = some (Scope.jsname x b!"Limit" (sc.n + 1), .num l))
+    (hfi : e.locals.find? (·.1 == Scope.jsname x b!"Index" (sc.n + 1)) = some (Scope.jsname x b!"Index" (sc.n + 1), .num idx))
+    (hdec : decide (l ≤ a + s) = (idx == last)) :
+    EnvRel (sc.pushForRange x).2 { (env.bind x (.int a)) with loops := (x, idx, last) :: env.loops } e := by
+  refine ⟨?_, ?_⟩
+  · intro k hk hd
+    rw [pushForRange_lookup sc x k hd]
+    by_cases hkx : (x == k) = true
+    · have : x = k := by simpa using hkx
+      subst this
+      simp only [hkx, if_true]
+      refine ⟨_, hfind, ?_⟩
+      simp [Spec.Eval.Env.bind, Spec.Eval.Env.lookup, Spec.Eval.find, C04c.toJsV, ha]
+    · simp only [hkx, Bool.false_eq_true, if_false]
+      have hr := hrel.1 k hk hd
+      have hlook : Spec.Eval.Env.lookup { (env.bind x (.int a)) with loops := (x, idx, last) :: env.loops } k = env.lookup k := by
+        have : (x == k) = false := by simpa using hkx
+        simp [Spec.Eval.Env.bind, Spec.Eval.Env.lookup, Spec.Eval.find, this]
+      rw [hlook]
+      exact hr
+  · intro v' f hf
+    rw [pushForRange_stack] at hf
+    simp only [Scope.loopFrame, rangeFrame_index sc x v' hx] at hf
+    by_cases hvv : (x == v') = true
+    · have : x = v' := C04c.beq_true_eq hvv
+      subst this
+      simp only [beq_self_eq_true, if_true, Option.some.injEq] at hf
+      subst hf
+      refine ⟨idx, last, by simp [Spec.Eval.findLoop], hexi, ?_, ?_⟩
+      · intro ix hix
+        rw [rangeFrame_index sc x x hx] at hix
+        simp only [beq_self_eq_true, if_true, Option.some.injEq] at hix
+        subst hix
+        exact C04c.localNum_of_find hfi
+      · rw [rangeFrame_step]
+        intro lv lim hlv hlim
+        rw [rangeFrame_var] at hlv
+        rw [rangeFrame_limit] at hlim
+        simp only [Option.some.injEq] at hlv hlim
+        subst hlv; subst hlim
+        exact ⟨a, s, l, C04c.localNum_of_find hfind, C04c.localNum_of_find hfs, C04c.localNum_of_find hfl, hdec⟩
+    · have hvv' : (x == v') = false := by simpa using hvv
+      simp only [hvv', Bool.false_eq_true, if_false] at hf
+      obtain ⟨i', last', hfl', hfr⟩ := hrel.2 v' f hf
+      exact ⟨i', last', by simp [Spec.Eval.findLoop, hvv', hfl'], hfr⟩
 
 theorem applyFn_range (args : List Val) : Spec.Eval.applyFn b!"range" args =
     (match args with
@@ -2410,7 +2685,8 @@ theorem range_loop_ok {sc : Scope} (hs : ScOk sc) (hg : GoodBuf sc buf) (v : Byt
     (lv xn xs xi : Bytes) (hlv : lv = Scope.jsname v [] (sc.n + 1)) (hxn : xn = Scope.jsname v b!"Limit" (sc.n + 1))
     (hxs : xs = Scope.jsname v b!"Step" (sc.n + 1)) (hxi : xi = Scope.jsname v b!"Index" (sc.n + 1)) :
     ∀ (k : Nat) (a : Int) (idx : Nat) (e e' : JEnv) (out : Bytes),
-      SoyVerif.Spec.JsSem.exact a = true → EnvRel sc env e → BufIs buf e out →
+      SoyVerif.Spec.JsSem.exact a = true → SoyVerif.Spec.JsSem.exact (idx : Int) = true →
+      (a < l → idx + (rangeItems a l s).length = last + 1) → EnvRel sc env e → BufIs buf e out →
       e.locals.find? (·.1 == xn) = some (xn, .num l) →
       e.locals.find? (·.1 == xs) = some (xs, .num s) →
       e.locals.find? (·.1 == xi) = some (xi, .num idx) →
@@ -2437,9 +2713,9 @@ theorem range_loop_ok {sc : Scope} (hs : ScOk sc) (hg : GoodBuf sc buf) (v : Byt
   obtain ⟨hs1, _, hn1⟩ := scOk_pushForRange hs v hv
   intro k
   induction k with
-  | zero => intro a idx e e' out _ _ _ _ _ _ _ hx; simp [execLoopStep] at hx
+  | zero => intro a idx e e' out _ _ _ _ _ _ _ _ _ hx; simp [execLoopStep] at hx
   | succ k ih =>
-    intro a idx e e' out hexa hrel hb h2 hst hix h3 hx
+    intro a idx e e' out hexa hexi hlen hrel hb h2 hst hix h3 hx
     unfold execLoopStep at hx
     obtain ⟨c, hc, hx⟩ := withVal_ok hx
     rw [cond_lt h3 h2] at hc
@@ -2449,9 +2725,25 @@ theorem range_loop_ok {sc : Scope} (hs : ScOk sc) (hg : GoodBuf sc buf) (v : Byt
     · have : decide (a < l) = true := by simpa using hlt
       simp only [this, toBoolean, if_true] at hx
       obtain ⟨eb, hbody, hx⟩ := sres_bind_ok hx
+      have hitems := rangeItems_step a l s hspos hlt
+      have hlen' := hlen hlt
+      rw [hitems, List.length_cons] at hlen'
+      have hdec : decide (l ≤ a + s) = (idx == last) := by
+        by_cases hnx : a + s < l
+        · have h1 := rangeItems_step (a + s) l s hspos hnx
+          rw [h1, List.length_cons] at hlen'
+          have e1 : decide (l ≤ a + s) = false := by simp; omega
+          have e2 : (idx == last) = false := by simp; omega
+          rw [e1, e2]
+        · have h1 := rangeItems_done (a + s) l s hspos hnx
+          rw [h1, List.length_nil] at hlen'
+          have e1 : decide (l ≤ a + s) = true := by simp; omega
+          have e2 : (idx == last) = true := by simp; omega
+          rw [e1, e2]
       have hrel_a : EnvRel (sc.pushForRange v).2
           { (env.bind v (.int a)) with loops := (v, idx, last) :: env.loops } e :=
-        envRel_forrange sc env e v a hrel hexa (by rw [hlv] at h3; exact h3) _
+        envRel_forrange sc env e v hv a s l idx last hrel hexa hexi (by rw [← hlv]; exact h3) (by rw [← hxs]; exact hst)
+          (by rw [← hxn]; exact h2) (by rw [← hxi]; exact hix) hdec
       obtain ⟨ti, hti, hb_b, hk_b⟩ := ihb fuel _ rb _ _ eb out hrb hs1 (goodBuf_pushForRange hg v hv) hrel_a hb hbody
       rw [hn1] at hk_b
       have oV : Old (sc.n + 1) lv := by rw [hlv]; exact old_jsname hv u0 (Nat.le_refl _)
@@ -2481,9 +2773,11 @@ theorem range_loop_ok {sc : Scope} (hs : ScOk sc) (hg : GoodBuf sc buf) (v : Byt
       subst hv0
       obtain ⟨r2, hr2, hx⟩ := withVal_ok hx
       simp only [incr] at hr2
-      obtain ⟨_, rfl⟩ := C04c.numRes_val hr2
+      obtain ⟨hexi', rfl⟩ := C04c.numRes_val hr2
       have hcast : ((idx : Int) + 1) = ((idx + 1 : Nat) : Int) := by omega
-      rw [hcast] at hx
+      rw [hcast] at hx hexi'
+      have hlen2 : a + s < l → (idx + 1) + (rangeItems (a + s) l s).length = last + 1 := by
+        intro _; omega
       have hk_c : Keeps buf sc.n eb (setLocal eb lv (.num (a + s))) := by
         rw [hlv]; exact keeps_setNew buf sc.n eb hv u0 (Nat.lt_succ_self _) _
       have hk_d : Keeps buf sc.n (setLocal eb lv (.num (a + s)))
@@ -2505,9 +2799,9 @@ theorem range_loop_ok {sc : Scope} (hs : ScOk sc) (hg : GoodBuf sc buf) (v : Byt
       have h3c : (setLocal (setLocal eb lv (.num (a + s))) xi (.num ((idx + 1 : Nat) : Int))).locals.find? (·.1 == lv) =
           some (lv, .num (a + s)) := by
         rw [find_setLocal_ne _ xi lv _ ne_lv_xi.symm]; exact find_setLocal_eq _ _ _
-      obtain ⟨tr, htr, hb', hk'⟩ := ih (a + s) (idx + 1) _ e' (out ++ ti) hexa' hrel_c hb_c h2c hsc (find_setLocal_eq _ _ _) h3c hx
+      obtain ⟨tr, htr, hb', hk'⟩ := ih (a + s) (idx + 1) _ e' (out ++ ti) hexa' hexi' hlen2 hrel_c hb_c h2c hsc (find_setLocal_eq _ _ _) h3c hx
       refine ⟨ti ++ tr, ?_, by rw [← List.append_assoc]; exact hb', hk_ec.trans hk' (Nat.le_refl _)⟩
-      rw [rangeItems_step a l s hspos hlt]
+      rw [hitems]
       simp only [Spec.Eval.loopSpec, hti, htr, Spec.Eval.Out.bind]
     · have : decide (a < l) = false := by simpa using hlt
       simp only [this, toBoolean, Bool.false_eq_true, if_false, SRes.ok.injEq] at hx
@@ -2621,7 +2915,8 @@ theorem range_ok (p : Nat) (v : Bytes) (list : Expr) (body : Block) (ihb : BodyO
       find_setLocal_ne _ _ buf _ (nb _ uS).symm, find_setLocal_ne _ _ buf _ (nb _ uN).symm]
     exact hb
   obtain ⟨text, ht, hb', hk'⟩ := range_loop_ok F ae buf hs hg v hv body rbv hrb ihb env lim c hpos fuel
-    ((rangeItems a lim c).length - 1) _ _ _ _ rfl rfl rfl rfl fuel a 0 _ e3 out hexa hrel4 hb4 fN fS (find_setLocal_eq _ _ _) fV h3
+    ((rangeItems a lim c).length - 1) _ _ _ _ rfl rfl rfl rfl fuel a 0 _ e3 out hexa (by decide)
+    (fun hlt => by rw [rangeItems_step a lim c hpos hlt]; simp) hrel4 hb4 fN fS (find_setLocal_eq _ _ _) fV h3
   have hk := k1234.trans hk' (Nat.le_refl _)
   have hst : rbv.2.pop.stack = sc.stack := by
     obtain ⟨p1, p2, _⟩ := scOk_pushForRange hs v hv
@@ -2650,7 +2945,7 @@ theorem foreach_core {sc : Scope} (hs : ScOk sc) (hg : GoodBuf sc buf) (v : Byte
     (hxn : xn = Scope.jsname v b!"Limit" (sc.n + 1)) (hxi : xi = Scope.jsname v b!"Index" (sc.n + 1))
     (e1 e2 : JEnv) (h1 : execStmt F fuel (.var xl j) jenv = .ok e1) (h2 : execStmt F fuel (.varLength xn xl) e1 = .ok e2) :
     ∃ xs js, Spec.Eval.eval env list = .val (.list xs) ∧ C04c.toJsList xs = some js ∧
-      EnvRel sc env e2 ∧ BufIs buf e2 out ∧ Keeps buf sc.n jenv e2 ∧
+      SoyVerif.Spec.JsSem.exact (js.length : Int) = true ∧ EnvRel sc env e2 ∧ BufIs buf e2 out ∧ Keeps buf sc.n jenv e2 ∧
       e2 = setLocal (setLocal jenv xl (.arr js)) xn (.num js.length) ∧
       e2.locals.find? (·.1 == xn) = some (xn, .num js.length) ∧
       (∀ e', execStmt F fuel (.forUp xi xn (.cons (.varIndex lv xl xi) rb.1)) e2 = .ok e' →
@@ -2683,7 +2978,7 @@ theorem foreach_core {sc : Scope} (hs : ScOk sc) (hg : GoodBuf sc buf) (v : Byte
   rw [hlen] at hr2
   cases jl <;> simp [apply1] at hr2
   rename_i js
-  obtain ⟨_, rfl⟩ := C04c.numRes_val hr2
+  obtain ⟨hexl, rfl⟩ := C04c.numRes_val hr2
   obtain ⟨xs, rfl, hxs⟩ := C04c.toJsV_arr hlj
   have k1 : Keeps buf sc.n jenv (setLocal jenv xl (.arr js)) := by
     rw [hxl]; exact keeps_setNew buf sc.n jenv hv uL (Nat.lt_succ_self _) _
@@ -2696,7 +2991,7 @@ theorem foreach_core {sc : Scope} (hs : ScOk sc) (hg : GoodBuf sc buf) (v : Byte
     rw [find_setLocal_ne _ xn buf _ (by rw [hxn]; exact (nb _ uN).symm),
       find_setLocal_ne _ xl buf _ (by rw [hxl]; exact (nb _ uL).symm)]
     exact hb
-  refine ⟨xs, js, hlvv, hxs, hrel2, hb2, k12, rfl, find_setLocal_eq _ _ _, ?_⟩
+  refine ⟨xs, js, hlvv, hxs, hexl, hrel2, hb2, k12, rfl, find_setLocal_eq _ _ _, ?_⟩
   intro e' hx
   simp only [execStmt] at hx
   have k3 : Keeps buf sc.n (setLocal (setLocal jenv xl (.arr js)) xn (.num js.length))
@@ -2707,7 +3002,8 @@ theorem foreach_core {sc : Scope} (hs : ScOk sc) (hg : GoodBuf sc buf) (v : Byte
     unfold BufIs
     rw [find_setLocal_ne _ xi buf _ (by rw [hxi]; exact (nb _ uI).symm)]
     exact hb2
-  obtain ⟨text, ht, hb', hk'⟩ := loop_ok F ae buf hs hg v hv body rb hrb ihb env xs js hxs fuel (xs.length - 1)
+  obtain ⟨text, ht, hb', hk'⟩ := loop_ok F ae buf hs hg v hv body rb hrb ihb env xs js hxs fuel (xs.length - 1) hexl
+    (fun hne => by have := List.length_pos_iff.mpr hne; omega)
     lv xl xn xi hlv hxl hxn hxi xs 0 (List.drop_zero) fuel _ e' out hrel3 hb3
     (by rw [find_setLocal_ne _ xi xl _ ne_xi_xl, find_setLocal_ne _ xn xl _ ne_xn_xl]; exact find_setLocal_eq _ _ _)
     (by rw [find_setLocal_ne _ xi xn _ ne_xi_xn]; exact find_setLocal_eq _ _ _)
@@ -2730,7 +3026,7 @@ theorem forc_none_ok (p : Nat) (v : Bytes) (list : Expr) (body : Block) (ihb : B
   obtain ⟨e3, h3, hx⟩ := sres_bind_ok hx
   simp only [SRes.ok.injEq] at hx
   subst hx
-  obtain ⟨xs, js, hev, hxs, _, _, k12, _, _, hloop⟩ := foreach_core F ae buf hs hg v hv list j hj body rbv hrb ihb env jenv out
+  obtain ⟨xs, js, hev, hxs, _, _, _, k12, _, _, hloop⟩ := foreach_core F ae buf hs hg v hv list j hj body rbv hrb ihb env jenv out
     hrel hb fuel _ _ _ _ rfl rfl rfl rfl e1 e2 h1 h2
   obtain ⟨text, ht, hb', hk'⟩ := hloop e3 h3
   have hk := k12.trans hk' (Nat.le_refl _)
@@ -2763,7 +3059,7 @@ theorem forc_some_ok (p : Nat) (v : Bytes) (list : Expr) (body ie : Block) (ihb 
   obtain ⟨e3, h3, hx⟩ := sres_bind_ok hx
   simp only [SRes.ok.injEq] at hx
   subst hx
-  obtain ⟨xs, js, hev, hxs, hrel2, hb2, k12, _, hfn, hloop⟩ := foreach_core F ae buf hs hg v hv list j hj body rbv hrb ihb
+  obtain ⟨xs, js, hev, hxs, _, hrel2, hb2, k12, _, hfn, hloop⟩ := foreach_core F ae buf hs hg v hv list j hj body rbv hrb ihb
     env jenv out hrel hb fuel _ _ _ _ rfl rfl rfl rfl e1 e2 h1 h2
   have hlen := C04c.toJsList_length xs js hxs
   have hst : rbv.2.pop.stack = sc.stack := by
@@ -2847,6 +3143,10 @@ theorem letContent_ok (p : Nat) (name : Bytes) (body : Block) (ih : ∀ buf', Bl
   refine ⟨[], env.bind name (.str text), by simp [refCmd, ht, Spec.Eval.Out.bind], ?_, by simpa using hbuf', hkeep⟩
   -- the relation in the scope that binds `name` to the buffer
   have hst : sc.stack ≠ [] := hs.1
+  have hloop : LoopRel (rbv.2.bind name (sc.genname name).1) (env.bind name (.str text)) jenv' := by
+    have h1 : LoopRel rbv.2 env jenv' := loopRel_keep hrel.2 hkeep hs.2 (Nat.le_refl _) hg.2 a1
+    exact loopRel_setTop h1 name _ hname _ (fun _ _ _ _ => rfl) rfl
+  refine ⟨?_, hloop⟩
   cases hstk : rbv.2.stack with
   | nil => rw [a1] at hstk; exact absurd hstk hst
   | cons f st =>
@@ -2867,7 +3167,7 @@ theorem letContent_ok (p : Nat) (name : Bytes) (body : Block) (ih : ∀ buf', Bl
       simp only [hnk, if_true]
       exact ⟨_, hb', by simp [Spec.Eval.Env.bind, Spec.Eval.Env.lookup, Spec.Eval.find, C04c.toJsV]⟩
     · simp only [hnk, Bool.false_eq_true, if_false]
-      have hr := hrel k hk hd
+      have hr := hrel.1 k hk hd
       have hlk : (env.bind name (.str text)).lookup k = env.lookup k := by
         have : (name == k) = false := by simpa using hnk
         simp [Spec.Eval.Env.bind, Spec.Eval.Env.lookup, Spec.Eval.find, this]
@@ -3431,6 +3731,36 @@ example : (match toCmds .off b!"output" sampleContent ⟨[[]], 0⟩ with
 example : refCmds sampleF .off sampleContent { vars := [(b!"n", .int 7)], loops := [], ij := none, globals := [] } =
     .val b!"ab<7in>7" := rfl
 
+/-- `{for $i in range(1, 4)}{index($i)}{isFirst($i) ? 'F' : ''}{isLast($i) ? 'L' : ''},{/for}` and the same over a list —
+    the example of ed89aa1: index counts iterations (0, 1, 2), not the values 1, 2, 3 -/
+def sampleLoopFns (list : Expr) : CmdList :=
+  .cons (.forc 0 b!"i" list
+      (.mk 0 (.cons (.print 0 (.func 0 b!"index" (.cons (.dataRef 0 b!"i" .nil) .nil)) [])
+        (.cons (.print 0 (.tern 0 (.func 0 b!"isFirst" (.cons (.dataRef 0 b!"i" .nil) .nil)) (.str 0 b!"'F'" b!"F") (.str 0 b!"''" [])) [])
+        (.cons (.print 0 (.tern 0 (.func 0 b!"isLast" (.cons (.dataRef 0 b!"i" .nil) .nil)) (.str 0 b!"'L'" b!"L") (.str 0 b!"''" [])) [])
+        (.cons (.rawText 0 b!",") .nil))))) none) .nil
+
+def rangeList : Expr := .func 0 b!"range" (.cons (.int 0 1) (.cons (.int 0 4) .nil))
+
+set_option maxRecDepth 8000 in
+example : (toCmds .off b!"output" (sampleLoopFns rangeList) ⟨[[]], 0⟩).map (fun r => printPieces (renderStmts 1 r.1)) = some
+    b!"  var i$Limit1 = 4;\n  var i$Step1 = 1;\n  for (var i$1 = 1, i$Index1 = 0; i$1 < i$Limit1; i$1 += i$Step1, i$Index1++) {\n    output += i$Index1;\n    output += (((i$Index1 == 0)) ?'F':'');\n    output += (((i$1 + i$Step1 >= i$Limit1)) ?'L':'');\n    output += ',';\n  }\n" := rfl
+
+def loopFnsRun (list : Expr) (data : List (Bytes × JVal)) : Option JVal :=
+  match toCmds .off b!"output" (sampleLoopFns list) ⟨[[]], 0⟩ with
+  | some r =>
+    (match execStmts sampleF 10 r.1 ⟨data, none, [(b!"output", .str [])]⟩ with
+      | .ok e => (e.locals.find? (·.1 == b!"output")).map (·.2)
+      | _ => none)
+  | none => none
+
+example : loopFnsRun rangeList [] = some (.str b!"0F,1,2L,") := rfl
+example : refCmds sampleF .off (sampleLoopFns rangeList) { vars := [], loops := [], ij := none, globals := [] } =
+    .val b!"0F,1,2L," := rfl
+example : loopFnsRun (.dataRef 0 b!"xs" .nil) [(b!"xs", .arr [.str b!"a", .str b!"b"])] = some (.str b!"0F,1L,") := rfl
+example : refCmds sampleF .off (sampleLoopFns (.dataRef 0 b!"xs" .nil))
+    { vars := [(b!"xs", .list [.str b!"a", .str b!"b"])], loops := [], ij := none, globals := [] } = .val b!"0F,1L," := rfl
+
 /-! ## what is proved, and what remains outside
 
   PROVED, for command lists built from raw text, `{print e |d…}` (directive arguments literal, every
@@ -3461,8 +3791,12 @@ example : refCmds sampleF .off sampleContent { vars := [(b!"n", .int 7)], loops 
   it or leaves the common subset (`unspec`: a print of a list or a map is text in Soy and outside the
   subset here, as is an integer beyond 2^53) — it never throws.
 
-  OUTSIDE (no theorem at the command level): `range` with a computed step, the loop functions
-  index / isFirst / isLast, `{call}` (needs a semantics of the generated FUNCTIONS and
+  The loop functions index / isFirst / isLast of foreach AND range variables are inside (Props/C04c `loop_corr`,
+  `LoopRel`: the index local is the iteration number of `loopSpec`, the generated last-iteration test holds
+  exactly in the last iteration — for a range loop `v + step >= limit`, related to the length of the rest of the
+  range by `rangeItems_step`).
+
+  OUTSIDE (no theorem at the command level): `range` with a computed step, `{call}` (needs a semantics of the generated FUNCTIONS and
   of soy.$$augmentMap; `{param}` content blocks with it), `{msg}` (placeholders, plural), `{css}`, `{log}`, `{debugger}`, `$ij`, globals, print directives with
   non-literal arguments, the template header (`opt_data = opt_data || {}`, `return output`) and
   the file level (namespaces, goog.provide / ES6 imports — covered for SHAPE by C14, not for meaning). -/
